@@ -24,12 +24,19 @@ Definition utf8_value (buf : list N) : N :=
       fold_left (fun code b => N.lor (N.shiftl code 6) (N.land b 63)) rest (N.land first mask)
   end.
 
+(* char::from_u32: surrogates and values above U+10FFFF are not characters *)
+Definition scalar_ok (v : N) : bool := (v <? 55296)%N || ((57343 <? v)%N && (v <? 1114112)%N).
+
+(* utf8_decode returns None for such values: Utf8Decoder::decode then fails like on a malformed byte *)
+Definition utf8_char (buf : list N) : ures :=
+  let v := utf8_value buf in if scalar_ok v then UChar v else UErr.
+
 (* one byte through Utf8Decoder::decode: a failed transition resets the decoder and is an
    error (the offending byte is consumed); an accepting state yields the character and resets *)
 Definition utf8_feed (s : ustate) (b : N) : ustate * ures :=
   match u_need s with
   | O =>
-      if (b <? 128)%N then (u0, UChar (utf8_value [b]))
+      if (b <? 128)%N then (u0, utf8_char [b])
       else if (N.shiftr b 5 =? 6)%N then (mkU 1 [b], UNone)
       else if (N.shiftr b 4 =? 14)%N then (mkU 2 [b], UNone)
       else if (N.shiftr b 3 =? 30)%N then (mkU 3 [b], UNone)
@@ -37,7 +44,7 @@ Definition utf8_feed (s : ustate) (b : N) : ustate * ures :=
   | S k =>
       if (N.shiftr b 6 =? 2)%N then
         match k with
-        | O => (u0, UChar (utf8_value (u_buf s ++ [b])))
+        | O => (u0, utf8_char (u_buf s ++ [b]))
         | S _ => (mkU k (u_buf s ++ [b]), UNone)
         end
       else (u0, UErr)
@@ -157,11 +164,11 @@ Definition put_cell (ctx : rctx) (st : wstate) (c : ccell) : outcome (wstate * b
 Definition put_char (ctx : rctx) (st : wstate) (ch : N) : outcome (wstate * bool) :=
   put_cell ctx st (mkCell (w_face st) (KChar ch)).
 
-(* impl io::Write for TerminalWriter: bytes through the decoder; every decoded character
-   is put; after a put that returned false the rest of the buffer is dropped and the call
-   reports the whole buffer as written (WFull); a decoding error is returned to the
-   caller (WErr); otherwise the whole buffer was processed (WDone). *)
-Inductive wstat := WDone | WFull | WErr.
+(* impl io::Write for TerminalWriter (as repaired: no early return after a put that reported
+   "out of space"): bytes through the decoder; every decoded character is put, the result of
+   the put ignored; a decoding error is returned to the caller (WErr) and ends the call;
+   otherwise the whole buffer was processed (WDone). *)
+Inductive wstat := WDone | WErr.
 
 Definition wstat_ok (s : wstat) : bool := match s with WErr => false | _ => true end.
 
@@ -176,8 +183,7 @@ Fixpoint write_bytes (ctx : rctx) (st : wstate) (bytes : list N) : outcome (wsta
       | UErr => Ok (st1, WErr)
       | UChar ch =>
           match put_char ctx st1 ch with
-          | Ok (st2, true) => write_bytes ctx st2 rest
-          | Ok (st2, false) => Ok (st2, WFull)
+          | Ok (st2, _) => write_bytes ctx st2 rest
           | Err e => Err e
           | Panic s => Panic s
           | OutOfFuel => OutOfFuel
@@ -193,7 +199,7 @@ Fixpoint write_chunks (ctx : rctx) (st : wstate) (chunks : list (list N)) : outc
   | ch :: rest =>
       match write_bytes ctx st ch with
       | Ok (st', WErr) => Ok (st', false)
-      | Ok (st', _) => write_chunks ctx st' rest
+      | Ok (st', WDone) => write_chunks ctx st' rest
       | Err e => Err e
       | Panic s => Panic s
       | OutOfFuel => OutOfFuel
@@ -229,7 +235,7 @@ Definition t0 (d : dfa) : tstate := mkT (d_start d) [] [] None.
 Definition decode_item (tag : nat) (buf : list N) : titem :=
   match tag with
   | O => TFace buf
-  | 1 => TChar (utf8_value buf)
+  | 1 => if scalar_ok (utf8_value buf) then TChar (utf8_value buf) else TRaw buf
   | _ => TRaw buf
   end.
 
@@ -314,30 +320,106 @@ Fixpoint sgr_lookup (tab : list (list N * face * face)) (seq : list N) (f : face
       if bytes_eqb s seq && face_eqb before f then after else sgr_lookup rest seq f
   end.
 
+(* MatcherDecoder::decode (src/decoder.rs:216-238), one call: rescheduled bytes are re-parsed
+   first, until one of them completes an item; only if none does, bytes are taken from the
+   input, until one completes an item or the input is exhausted.  Rescheduled bytes that are
+   left stay for the next call. *)
+Fixpoint drain_lazy (d : dfa) (fuel : nat) (st : tstate) : outcome (tstate * option titem) :=
+  match t_resched st with
+  | [] => Ok (st, None)
+  | b :: r =>
+      match fuel with
+      | O => OutOfFuel
+      | S f =>
+          let '(st1, o) := decode_byte d (mkT (t_q st) (t_buf st) r (t_cand st)) b in
+          match o with
+          | Some it => Ok (st1, Some it)
+          | None => drain_lazy d f st1
+          end
+      end
+  end.
+
+Fixpoint feed_until (d : dfa) (st : tstate) (input : list N) : tstate * option titem * list N :=
+  match input with
+  | [] => (st, None, [])
+  | b :: rest =>
+      let '(st1, o) := decode_byte d st b in
+      match o with
+      | Some it => (st1, Some it, rest)
+      | None => feed_until d st1 rest
+      end
+  end.
+
+Definition tok_decode (d : dfa) (st : tstate) (input : list N) : outcome (tstate * option titem * list N) :=
+  match drain_lazy d (tok_weight st) st with
+  | Ok (st1, Some it) => Ok (st1, Some it, input)
+  | Ok (st1, None) => Ok (feed_until d st1 input)
+  | Err e => Err e
+  | Panic s => Panic s
+  | OutOfFuel => OutOfFuel
+  end.
+
 (* TTYCellWriter::write: commands applied to the parent writer as they are decoded;
    the result of put_char is ignored, the call always returns Ok *)
-Fixpoint tty_apply (ctx : rctx) (st : wstate) (items : list titem) : outcome wstate :=
-  match items with
-  | [] => Ok st
-  | TChar ch :: t =>
+Definition tty_apply1 (ctx : rctx) (st : wstate) (it : titem) : outcome wstate :=
+  match it with
+  | TChar ch =>
       match put_char ctx st ch with
-      | Ok (st', _) => tty_apply ctx st' t
+      | Ok (st', _) => Ok st'
       | Err e => Err e
       | Panic s => Panic s
       | OutOfFuel => OutOfFuel
       end
-  | TFace seq :: t => tty_apply ctx (set_face st (sgr_lookup (sgr_tab ctx) seq (w_face st))) t
-  | TRaw _ :: t => tty_apply ctx st t
+  | TFace seq => Ok (set_face st (sgr_lookup (sgr_tab ctx) seq (w_face st)))
+  | TRaw _ => Ok st
   end.
 
-Fixpoint tty_write (ctx : rctx) (st : wstate) (ts : tstate) (bytes : list N) : outcome (wstate * tstate) :=
+Fixpoint tty_apply (ctx : rctx) (st : wstate) (items : list titem) : outcome wstate :=
+  match items with
+  | [] => Ok st
+  | it :: t =>
+      match tty_apply1 ctx st it with
+      | Ok st' => tty_apply ctx st' t
+      | other => other
+      end
+  end.
+
+(* `while let Some(cmd) = self.decoder.decode(&mut cur)? { apply cmd }`: one decode per
+   iteration on what is left of the buffer; ends when a decode yields nothing *)
+Fixpoint tty_write_loop (ctx : rctx) (fuel : nat) (st : wstate) (ts : tstate) (input : list N)
+  : outcome (wstate * tstate) :=
+  match fuel with
+  | O => OutOfFuel
+  | S f =>
+      match tok_decode (cmd_dfa ctx) ts input with
+      | Ok (ts1, Some it, rest) =>
+          match tty_apply1 ctx st it with
+          | Ok st1 => tty_write_loop ctx f st1 ts1 rest
+          | Err e => Err e
+          | Panic s => Panic s
+          | OutOfFuel => OutOfFuel
+          end
+      | Ok (ts1, None, _) => Ok (st, ts1)
+      | Err e => Err e
+      | Panic s => Panic s
+      | OutOfFuel => OutOfFuel
+      end
+  end.
+
+(* every iteration but the last consumes at least one byte for good *)
+Definition tty_write (ctx : rctx) (st : wstate) (ts : tstate) (input : list N) : outcome (wstate * tstate) :=
+  tty_write_loop ctx (S (length (t_resched ts) + length (t_buf ts) + length input)) st ts input.
+
+(* the same as a fold over the bytes of the stream, whatever the calls they arrive in: after each
+   byte everything that was rescheduled is re-parsed.  WriterTty.v proves tty_write = tty_fold. *)
+Fixpoint tty_fold (ctx : rctx) (st : wstate) (ts : tstate) (bytes : list N) : outcome (wstate * tstate) :=
   match bytes with
   | [] => Ok (st, ts)
   | b :: rest =>
       match tok_feed (cmd_dfa ctx) ts b with
       | Ok (ts', items) =>
           match tty_apply ctx st items with
-          | Ok st' => tty_write ctx st' ts' rest
+          | Ok st' => tty_fold ctx st' ts' rest
           | Err e => Err e
           | Panic s => Panic s
           | OutOfFuel => OutOfFuel
@@ -364,6 +446,7 @@ Inductive wop :=
 | OCell (c : ccell)                  (* put_cell (char with its own face, glyph, image) *)
 | OFace (f : face)                   (* set_face *)
 | OWraps (b : bool)                  (* set_wraps *)
+| OCursor (r c : nat)                (* TerminalWriter::set_cursor *)
 | OWrite (chunks : list (list N))    (* io::Write::write once per chunk, stop at the first Err *)
 | OWriteU (chunks : list (list N))   (* the same through writer.by_ref().utf8_writer(): Utf8CellWriter
                                         with a decoder of its own, dropped afterwards *)
@@ -386,6 +469,9 @@ Definition wop_step (ctx : rctx) (st : wstate) (o : wop) : outcome (wstate * boo
   | OCell c => put_cell ctx st c
   | OFace f => Ok (set_face st f, true)
   | OWraps b => Ok (set_wraps st b, true)
+  | OCursor r c =>
+      let l := w_l st in
+      Ok (set_l st (mkL (l_h l) (l_w l) (Nat.min r (sh_height (w_sh st))) (Nat.min c (sh_width (w_sh st)))), true)
   | OWrite chunks => write_chunks ctx st chunks
   | OWriteU chunks =>
       match write_chunks ctx (set_dec st u0) chunks with
@@ -442,10 +528,11 @@ Fixpoint put_cells (ctx : rctx) (st : wstate) (cells : list ccell) : outcome wst
       end
   end.
 
-(* Text::render (src/view/text.rs:171): writer over layout.apply_to(surf) with the text's wraps flag *)
-Definition text_render (ctx : rctx) (sh : shape) (data : list ccell) (lay_h lay_w : nat)
+(* Text::render (src/view/text.rs:171): writer over layout.apply_to(surf) -- the layout's position
+   (set by the parent view) and size -- with the text's wraps flag *)
+Definition text_render (ctx : rctx) (sh : shape) (data : list ccell) (pr pc lay_h lay_w : nat)
            (cells : list ccell) (wraps : bool) : outcome wstate :=
-  put_cells ctx (set_wraps (writer_new (apply_layout sh 0 0 lay_h lay_w) data) wraps) cells.
+  put_cells ctx (set_wraps (writer_new (apply_layout sh pr pc lay_h lay_w) data) wraps) cells.
 
 (* Text::layout: measured size clamped to the constraint (min <= max per axis) *)
 Definition text_layout (ctx : rctx) (cells : list ccell) (wraps : bool)
